@@ -69,7 +69,9 @@ var soupTags = []string{"div", "p", "b", "i", "span", "table", "tr", "td", "ul",
 	"noscript", "script", "style", "iframe", "noembed", "noframes", "xmp", "o:p:q", "head"}
 var soupAttrs = []string{`id="x"`, `class='a b'`, `xmlns="http://www.w3.org/1999/xhtml"`, `xmlns:xlink="http://www.w3.org/1999/xlink"`, `xlink:href="#a"`, `xml:lang="en"`,
 	`data-x`, `x:y="1"`, `XMLNS:foo="u"`, `href="?a=1&amp;b=2"`, `disabled`, `xmlns:svg="http://www.w3.org/2000/svg"`,
-	`v-on:click:once="f"`, `a:b:c`, `:x="1"`, `xlink:title:x="t"`}
+	`v-on:click:once="f"`, `a:b:c`, `:x="1"`, `xlink:title:x="t"`,
+	// names the tree builder spells in mixed case inside svg / math, and a non-ASCII upper-case letter
+	`viewBox="0 0 1 1"`, `preserveAspectRatio="none"`, `definitionURL="u"`, `État="x"`, `gradientUnits="u"`}
 var soupText = []string{"text", " ", "a &amp; b", "&lt;x&gt;", "é中", "1 < 2", "\n  ", "]]>", "&nbsp;", "x",
 	"&amp;lt;b&amp;gt;", "&amp;amp;", "&amp;nbsp;x", "el.innerHTML=\"&nbsp;&lt;\""} // decoded once they still spell a reference
 
@@ -78,6 +80,13 @@ func soup(rng *rand.Rand) string {
 	b.WriteString([]string{"<!DOCTYPE html>", "<!doctype html>\n", "<!DOCTYPE html PUBLIC \"-//W3C//DTD HTML 4.01//EN\">"}[rng.Intn(3)])
 	// what a charset-sniffing reader would act on (the bytes are UTF-8 and must be taken as such, as html.Parse does):
 	// a meta element naming another charset, or more than 1024 ASCII bytes before the first non-ASCII character
+	if rng.Intn(4) == 0 {
+		// a comment between the doctype and the html element (a child of the root)
+		b.WriteString("<!-- saved from url=(0014)about:internet -->")
+		if rng.Intn(2) == 0 {
+			b.WriteString("<html lang=en><!--in html-->")
+		}
+	}
 	switch rng.Intn(8) {
 	case 0:
 		b.WriteString(`<meta charset="windows-1252">`)
